@@ -516,6 +516,12 @@ class Extractor:
                 if not m:
                     raise ValueError('%s:%d: bad rewrite directive' % (tname, ln))
                 cur.edits.append(dict(op='rewrite', rule=m.group(1), frm=m.group(2).replace('\\n', '\n'), to=m.group(3).replace('\\n', '\n'), scope=cur_scope, optional=(word == 'rewrite?')))
+            elif word in ('closure', 'closure?'):
+                # //@ closure R8 `|&id|` => `|id0: &usize| -> (res: X) ensures ..` [let `let id = *id0;`]
+                m = re.match(r'(\w+)\s+' + _BT + r'\s*=>\s*' + _BT + r'(?:\s+let\s+' + _BT + r')?\s*$', rest)
+                if not m:
+                    raise ValueError('%s:%d: bad closure directive' % (tname, ln))
+                cur.edits.append(dict(op='closure', rule=m.group(1), frm=m.group(2), to=m.group(3), let=m.group(4) or '', scope=cur_scope, optional=(word == 'closure?')))
             elif word == 'attr':
                 cur.attrs.append(rest.strip())
             elif word == 'ret':
@@ -945,6 +951,57 @@ class Extractor:
                     self.log.rw('RET', rel, line0 + text.count('\n', 0, lo + t0), '-> ' + rt, '-> (%s: %s)' % (e['ret'], rt))
                 edits.append((bopen, 0, ghost(e['lines']), True))
                 spec.ghost_lines += len(e['lines'])
+            elif op == 'closure':
+                # the parameter list of a closure literal gets types / a contract and, where the original used a pattern, a variable
+                # plus a `let`; the closure BODY is taken as it is, wherever it ends (the rule does not look inside it)
+                if spec.external:
+                    continue
+                let_txt = e['let']
+                try:
+                    if e['frm'].startswith('re:'):
+                        # parameter NAMES are free: the anchor is a regular expression, its groups may be used in the `let`
+                        ms = [x for x in re.finditer(e['frm'][3:], seg) if mask[lo + x.start()]]
+                        if len(ms) != 1:
+                            raise LostAnchor('%s: fn %s: closure `%s` found %d times' % (rel, spec.name, e['frm'], len(ms)))
+                        m = ms[0]
+                        let_txt = m.expand(let_txt)
+                    else:
+                        m = find_anchor(seg, e['frm'], None)
+                except LostAnchor:
+                    if e.get('optional'):
+                        continue
+                    raise
+                b0 = lo + m.end()
+                j = b0
+                while j < hi and text[j].isspace():
+                    j += 1
+                if text[j] == '{' and mask[j]:
+                    bend = match_close(text, mask, j) + 1
+                    k = bend
+                    while k < hi and text[k].isspace():
+                        k += 1
+                    if k < hi and text[k] in '.?':
+                        bend = None          # `{ .. }.method()` - the body goes on: fall through to the general scan
+                else:
+                    bend = None
+                if bend is None:
+                    k = j
+                    while k < hi:
+                        c = text[k]
+                        if mask[k]:
+                            if c in '([{':
+                                k = match_close(text, mask, k) + 1
+                                continue
+                            if c in ',;)]}':
+                                break
+                        k += 1
+                    bend = k
+                    while bend > j and text[bend - 1].isspace():
+                        bend -= 1
+                self.log.rw(e['rule'], rel, line0 + text.count('\n', 0, lo + m.start()), norm(e['frm']) + ' BODY',
+                            norm(e['to']) + ' { ' + let_txt + ' BODY }')
+                edits.append((lo + m.start(), m.end() - m.start(), e['to'] + ' { ' + let_txt + ' ', False))
+                edits.append((bend, 0, ' }', False, 0))
             elif op == 'rewrite':
                 if spec.external and e['rule'] not in ('RET', 'SIG'):
                     continue
